@@ -1,6 +1,6 @@
 SPECIFICATION MCSpec
-CONSTANT Params <- ElfParamsSet
-CONSTANT MkCase <- ElfCase
+CONSTANT Params <- StrParams
+CONSTANT MkCase <- StrCase
 CONSTANT MaxTags = 3
 CONSTANT DstExtra = 9
 CONSTANT MaxD = 64
